@@ -99,13 +99,13 @@ func cmdSet(m *Model, d *DB, conn int, a [][]byte, now time.Time) Reply {
 	apply := func() {
 		e := &Entry{T: TString, S: append([]byte(nil), val...)}
 		if keepttl && exists && old.HasTTL {
-			e.setDeadline(old.Exact, old.WinLo, old.WinHi)
+			e.keepDeadline(old)
 		}
 		switch ttlKind {
 		case "ex":
-			e.expireIn(now, time.Duration(ttlVal)*time.Second)
+			e.expireIn(now, time.Duration(ttlVal)*time.Second, "set-ex")
 		case "px":
-			e.expireIn(now, time.Duration(ttlVal)*time.Millisecond)
+			e.expireIn(now, time.Duration(ttlVal)*time.Millisecond, "set-px")
 		case "exat":
 			e.expireAt(ttlVal)
 		case "pxat":
@@ -286,7 +286,7 @@ func cmdSetEx(m *Model, d *DB, conn int, a [][]byte, now time.Time) Reply {
 		return errAny("invalid expire time in 'setex' command")
 	}
 	e := &Entry{T: TString, S: append([]byte(nil), a[3]...)}
-	e.expireIn(now, time.Duration(sec)*time.Second)
+	e.expireIn(now, time.Duration(sec)*time.Second, "setex")
 	d.Keys[string(a[1])] = e
 	return status("OK")
 }
@@ -509,7 +509,7 @@ func cmdExpire(m *Model, d *DB, conn int, a [][]byte, now time.Time) Reply {
 			delete(d.Keys, key)
 			return
 		}
-		e.expireIn(now, time.Duration(sec)*time.Second)
+		e.expireIn(now, time.Duration(sec)*time.Second, "expire")
 	}
 	if (gt || lt) && e.HasTTL {
 		diff := newExact.Sub(e.Exact)
